@@ -585,7 +585,7 @@ impl<'s, I: Interner, Solver: SolveDatabase<I>> Fulfill<'s, I, Solver> {
                         free_vars,
                         universes,
                         solution,
-                    } = self.prove(goal, minimums, should_continue.clone()).unwrap();
+                    } = self.prove(goal, minimums, should_continue.clone())?;
                     if let Some(constrained_subst) =
                         solution.constrained_subst(self.solver.interner())
                     {
